@@ -224,6 +224,57 @@ Definition rgn_iter (revX revY : bool) (r : region) : list rect :=
               map (fun '(x1, x2, _) => (x1, y1, x2, y2)) (if revX then rev xs else xs))
            (if revY then rev r else r).
 
+(* The iterator as the two-level cursor machine it is in C (sraRgnGetReverseIterator /
+   sraRgnIteratorNext): sPtrs[0] walks the bands in the y direction - [it_bands] are the bands
+   still to come -, sPtrs[2] walks the spans of the current band in the x direction - [it_cur] is
+   that band with the spans still to come.  One call of sraRgnIteratorNext = [iter_next]. *)
+Record iter_state : Type := mk_iter { it_revx : bool; it_bands : region; it_cur : option (Z * Z * xspans) }.
+
+Definition iter_init (revX revY : bool) (r : region) : iter_state :=
+  mk_iter revX (if revY then rev r else r) None.
+
+Inductive iter_result : Type :=
+| IterEnd                                   (* returns 0 *)
+| IterRect (rc : rect) (st : iter_state)    (* returns -1 with the rectangle filled in *)
+| IterUndefined.                            (* a band without spans: the C code reads a sentinel's fields *)
+
+(* "is the subspan finished?" popped to the y level, or the first call: go to the next band and
+   enter its span list from the requested end *)
+Definition iter_enter (revx : bool) (bands : region) : iter_result :=
+  match bands with
+  | [] => IterEnd
+  | (y1, y2, xs) :: br =>
+      match (if revx then rev xs else xs) with
+      | (x1, x2, _) :: xr => IterRect (x1, y1, x2, y2) (mk_iter revx br (Some (y1, y2, xr)))
+      | [] => IterUndefined
+      end
+  end.
+
+Definition iter_next (st : iter_state) : iter_result :=
+  match it_cur st with
+  | Some (y1, y2, (x1, x2, _) :: xr) =>
+      IterRect (x1, y1, x2, y2) (mk_iter (it_revx st) (it_bands st) (Some (y1, y2, xr)))
+  | _ => iter_enter (it_revx st) (it_bands st)
+  end.
+
+Fixpoint iter_run (fuel : nat) (st : iter_state) : option (list rect) :=
+  match fuel with
+  | O => None
+  | S f =>
+      match iter_next st with
+      | IterEnd => Some []
+      | IterUndefined => None
+      | IterRect rc st' => match iter_run f st' with Some l => Some (rc :: l) | None => None end
+      end
+  end.
+
+Definition total_spans (r : region) : nat :=
+  fold_right (fun (b : span xspans) n => (length (snd b) + n)%nat) O r.
+
+(* all rectangles by repeated sraRgnIteratorNext; None = undefined behaviour met (or out of fuel) *)
+Definition rgn_iter_machine (revX revY : bool) (r : region) : option (list rect) :=
+  iter_run (S (total_spans r)) (iter_init revX revY r).
+
 (* sraRgnPopRect: flags bit0 = bottom2top, bit1 = right2left *)
 Definition rgn_pop_rect (r : region) (right2left bottom2top : bool) : option (rect * region) :=
   let r' := if bottom2top then rev r else r in
